@@ -74,8 +74,8 @@ class C01(Spec):
                    '(counted in the evidence)']
 
     def gen(self, tier, rng):
-        n = 140 if tier == 'quick' else 1500
-        nextra = 5 if tier == 'quick' else 14
+        n = 260 if tier == 'quick' else 2000
+        nextra = 6 if tier == 'quick' else 14
         cases = []
         for k in range(n):
             cpl = (k % 4 == 3)
